@@ -58,6 +58,8 @@ def main():
         W = "/tmp/wt/r6-%s" % pid  # round 6
     if any(m in ("m19", "m20", "m21") for m in ms):
         W = "/tmp/wt/r7-%s" % pid  # round 7
+    if any(m in ("m22", "m23", "m24") for m in ms):
+        W = "/tmp/wt/r8-%s" % pid  # round 8
     take_slot()
     for m in ms:
         out = os.path.join(W, "_out", m)
